@@ -13,8 +13,9 @@
    A percentile entry of an aggregate is a Go map; the keys the merge reads and writes are
    "quantile", "max", "count", "average" ([pent]); "min" is written but never read (the code
    sets it to the max of the node merged last) and "value" is only copied by UnmarshalJSON:
-   neither is modelled.  An entry that was a JSON null is a nil map ([None]): reading a key of
-   it yields 0, assigning into it panics.
+   neither is modelled.  A nil map ([None]) reads as 0 under every key and panics when assigned
+   into; UnmarshalJSON drops the JSON null entries (dc56edf), so no decoded block holds one --
+   only a hand-built receiver can (QuantileProofs: the merge of decoded blocks never panics).
    sort.Sort at the end of Add orders by the key "percentile", which no entry has: the order of
    the entries is compared as a multiset.  No proofs here. *)
 From Coq Require Import List ZArith QArith Bool.
@@ -29,14 +30,12 @@ Record eagg := mkEA { ea_count : Z; ea_pcts : list (option pent) }.
 (* m[key] of a possibly nil map *)
 Definition oget (f : pent -> Q) (v : option pent) : Q := match v with Some e => f e | None => 0 end.
 
-(* UnmarshalJSON: for every non-null entry p: p["min"] = p["max"] = p["average"] = p["value"],
-   p["count"] = float64(resp.Count) *)
-Definition decode_pct (cnt : Z) (p : option pct) : option pent :=
-  match p with
-  | Some p => Some (mkPE (pc_q p) (pc_val p) (inject_Z cnt) (pc_val p))
-  | None => None
-  end.
-Definition e2e_decode (e : e2e) : eagg := mkEA (e_count e) (map (decode_pct (e_count e)) (e_pcts e)).
+(* UnmarshalJSON: null entries are skipped (`if p == nil { continue }`); every other entry p:
+   p["min"] = p["max"] = p["average"] = p["value"], p["count"] = float64(resp.Count), and is
+   appended to the aggregate's list *)
+Definition decode_pct (cnt : Z) (p : pct) : pent := mkPE (pc_q p) (pc_val p) (inject_Z cnt) (pc_val p).
+Definition e2e_decode (e : e2e) : eagg :=
+  mkEA (e_count e) (map (fun p => Some (decode_pct (e_count e) p)) (nonnil (e_pcts e))).
 
 (* math.Max on finite numbers *)
 Definition qmax (a b : Q) : Q := if Qle_bool a b then b else a.
@@ -96,11 +95,16 @@ Definition e2e_of_nodes (nodes : list (option e2e)) : res (option eagg) :=
 (* the topic view's channels: TopicStats.Add appends the first node's *ChannelStats of a name
    as it is -- its aggregate is that node's decoded one, or nil -- and Adds the later nodes'
    to THAT object *)
+Definition e2e_of_receiver (recv : option eagg) (nodes : list (option e2e)) : res (option eagg) :=
+  fold_res stats_e2e_add nodes recv.
 Definition e2e_of_topic_channel (nodes : list (option e2e)) : res (option eagg) :=
   match nodes with
   | [] => Ok None
-  | a :: r => fold_res stats_e2e_add r (option_map e2e_decode a)
+  | a :: r => e2e_of_receiver (option_map e2e_decode a) r
   end.
+(* a receiver built by hand with [k] nil maps in front of its decoded entries: no upstream
+   answer produces it; the correspondence uses it to exercise Add's assignment into a nil map *)
+Definition with_nil_maps (k : nat) (e : eagg) : eagg := mkEA (ea_count e) (repeat None k ++ ea_pcts e).
 
 (* ---- the plain functions the theorems are about: entries without nil maps, plain division *)
 Definition merge_p (cur : pent) (value : option pent) : pent :=
